@@ -42,7 +42,9 @@ func checkC06(c caseC06) (sig, msg string) {
 			return "harness", fmt.Sprintf("harness: frame %d is not a complete frame: %s", i, hx(f))
 		}
 		alone := contiguous(f)
-		got := readScripted(sr, len(f), func() interface{} { return vf.Failure{Property: "C06", Kind: "hang", Case: mustJSON(c), Signature: "hang"} })
+		got := readScripted(sr, len(f), func() interface{} {
+			return vf.Failure{Property: "C06", Kind: "hang", Case: mustJSON(c), Signature: "hang"}
+		})
 		want += total
 		if got.Panic != nil {
 			return "panic", fmt.Sprintf("call %d panicked: %v", i, got.Panic.Value)
@@ -55,7 +57,9 @@ func checkC06(c caseC06) (sig, msg string) {
 		}
 	}
 	if len(c.Trailing) == 0 {
-		got := readScripted(sr, 16, func() interface{} { return vf.Failure{Property: "C06", Kind: "hang", Case: mustJSON(c), Signature: "hang"} })
+		got := readScripted(sr, 16, func() interface{} {
+			return vf.Failure{Property: "C06", Kind: "hang", Case: mustJSON(c), Signature: "hang"}
+		})
 		if got.OK || got.Err == nil || !errors.Is(got.Err, io.EOF) {
 			return "no-eof-after-last-frame", fmt.Sprintf("after the last frame ReadPacket returned ok=%v err=%v, want an error that is io.EOF", got.OK, got.Err)
 		}
